@@ -9,6 +9,9 @@
              skips missed ticks.
   C07.SAME   every series of a tick is resampled with the same self._window_end and emits a sample
              carrying that timestamp unchanged.
+  C07.ONE    the shared resampler's resample() loop is started only from the actor's supervising loop,
+             only when the previous task is absent or finished, and the task variable is only reset
+             when the task is known finished (two loops on one resampler repeat/skip timestamps).
 """
 from __future__ import annotations
 
@@ -59,6 +62,14 @@ def check_align(run: Run, prog: Program) -> None:  # noqa: C901
             continue
         NOW = f"<{clocks[0]}#1>"
         te0 = TermEval()
+        clock = [e.node for e in p.calls(lambda c: u(c.func).endswith("datetime.now"))]
+        tz = positional(clock[0], ["tz"]).get("tz") if clock else None  # type: ignore[arg-type]
+        run.check(u(tz) in ("timezone.utc", "datetime.timezone.utc", "UTC", "datetime.UTC"), "C07.ALIGN", fn.qual,
+                  "now = datetime.now(timezone.utc)",
+                  "the clock is not read in UTC: with `now` in the zone of align_to (same tzinfo) the "
+                  "subtraction and every later `+ period` are wall-clock arithmetic, so across a DST change "
+                  "the emitted instants repeat or skip an hour and leave the align_to + k*period grid",
+                  instance=f"{fn.qual}: clock read in UTC", **where)
 
         def is_elapsed(e: ast.AST) -> bool:
             return isinstance(e, ast.BinOp) and isinstance(e.op, ast.Mod) and u(e.right) == PER \
@@ -233,6 +244,66 @@ def check_step(run: Run, prog: Program) -> None:
               "the window end is advanced before the series are resampled with it", node=inc.ast, file=fn.file)
 
 
+ACTOR = "microgrid._resampling:ComponentMetricsResamplingActor"
+
+
+def check_one(run: Run, prog: Program) -> None:
+    """Only one Resampler.resample() loop is ever alive on a resampler (two loops share the timer and
+    _window_end: a late burst of ticks makes them emit one timestamp twice and skip another)."""
+    fn = prog.func(f"{ACTOR}._run")
+    run.analysed(fn.qual)
+    sites = [(f, c) for f, c in prog.attr_call_sites("resample")
+             if isinstance(c.func, ast.Attribute) and u(c.func.value) == "self._resampler"
+             and f.cls is not None and f.cls.qual == ACTOR]
+    for f, c in sites:
+        run.check(f.qual == fn.qual, "C07.ONE", f.qual, c,
+                  "the resampling loop of the actor's resampler is started from somewhere else than the "
+                  "supervising loop", node=c, file=f.file)
+    if not any(f.qual == fn.qual for f, _ in sites):
+        raise AnalysisError(f"{fn.qual}: self._resampler.resample() not found")
+    node = inline_helpers(prog, fn)
+    loops = [s for s in body_walk(node) if isinstance(s, ast.While)]
+    if len(loops) != 1:
+        raise AnalysisError(f"{fn.qual}: supervising loop not found")
+
+    def is_start(c: ast.Call) -> bool:
+        return u(c.func).endswith("create_task") and len(c.args) >= 1 and u(c.args[0]) == "self._resampler.resample()"
+
+    # the variable that holds the running task
+    holders = {t.id for s in body_walk(loops[0]) if isinstance(s, (ast.Assign, ast.AnnAssign)) and s.value is not None
+               and isinstance(s.value, ast.Call) and is_start(s.value)
+               for t in (s.targets if isinstance(s, ast.Assign) else [s.target]) if isinstance(t, ast.Name)}
+    if len(holders) != 1:
+        raise AnalysisError(f"{fn.qual}: variable holding the resampling task not identified ({sorted(holders)})")
+    V = next(iter(holders))
+    n = 0
+    for p, _st in sym_block(loops[0].body):
+        where = dict(node=fn.node, file=fn.file, path=p.describe())
+        starts = p.calls(is_start)
+        absent = p.outcome(("is", frozenset({V, "None"}))) is True
+        finished = p.outcome(("truthy", f"{V}.done()")) is True
+        if starts:
+            n += 1
+            run.check(len(starts) == 1 and (absent or finished), "C07.ONE", fn.qual,
+                      f"start resample() only if {V} is None or {V}.done()",
+                      "a second resampling loop can be started on the same resampler while the previous one "
+                      "is still running", instance=f"{fn.qual}: start guarded by absent/finished "
+                      f"[{'absent' if absent else 'finished'}]", **where)
+        final = p.env.get(V)
+        if final is not None and not (isinstance(final, ast.Call) and is_start(final)):
+            # the task is forgotten (or replaced by something else): only allowed once it is known finished
+            was = {V} | {u(s.node) for s in starts}
+            known_done = finished or any(
+                isinstance(k, tuple) and k[0] == "in" and k[1] in was and o for k, o, *_ in p.conds)
+            run.check(known_done and isinstance(final, ast.Constant) and final.value is None, "C07.ONE", fn.qual,
+                      f"{V} forgotten only when finished",
+                      f"the variable holding the running resampling task is reset ({u(final)[:60]}) on a path "
+                      "where that task is not known to be finished: the loop head then starts a second "
+                      "resample() loop on the same resampler", **where)
+    if not n:
+        raise AnalysisError(f"{fn.qual}: no path starts the resampling task")
+
+
 def _gather_ok(g: ast.Call) -> bool:
     if not (g.args and isinstance(g.args[0], ast.Starred) and isinstance(g.args[0].value, (ast.ListComp, ast.GeneratorExp))):
         return False
@@ -321,6 +392,11 @@ def check_same(run: Run, prog: Program) -> None:
 
 
 CONTROLS = [
+    ("clock in the zone of align_to", MOD, "now = datetime.now(timezone.utc)\n        period = self._config.resampling_period",
+     "now = datetime.now(self._config.align_to.tzinfo if self._config.align_to else timezone.utc)\n        period = self._config.resampling_period",
+     "C07.ALIGN"),
+    ("resampling task always restarted", "microgrid._resampling",
+     "                if resampling_task is None or resampling_task.done():\n", "                if True:\n", "C07.ONE"),
     ("alignment sign flipped", MOD, "now + period * 2 - elapsed", "now + period * 2 + elapsed", "C07.ALIGN"),
     ("advance moved after the raise", MOD,
      "            self._window_end += self._config.resampling_period\n", "", "C07.STEP"),
@@ -337,6 +413,7 @@ def run_rules(run: Run, prog: Program) -> None:
     check_align(run, prog)
     check_step(run, prog)
     check_same(run, prog)
+    check_one(run, prog)
 
 
 def check(run: Run, prog: Program, tier: str) -> str:
@@ -346,10 +423,13 @@ def check(run: Run, prog: Program, tier: str) -> str:
              "advance happens exactly once per tick after the gather and before any raise/break; "
              "the timer triggers all missed ticks")
     run.rule("C07.SAME", "all series of a tick get self._window_end and emit it unchanged")
+    run.rule("C07.ONE", "Resampler.resample() is started only by the actor's supervising loop and only when the "
+             "previous resampling task is absent or finished; the task variable is only reset when finished")
     run_rules(run, prog)
     run.floor("C07.ALIGN", 9)
     run.floor("C07.STEP", 7)
     run.floor("C07.SAME", 4)
+    run.floor("C07.ONE", 3)
     from ..engine.controls import run_controls
 
     run_controls(run, CONTROLS, run_rules, tier)
